@@ -14,17 +14,18 @@ RULE = ('molecules as in C01 (no domain exclusions) in aromatic and Kekule form 
         'atom order each call wrote; oracle: atom-by-atom identity (element, isotope, charge, radical, H count, bond '
         'orders, independent stereo parity descriptors) through written-order -> parsed-number mapping; injectivity: '
         'exhaustive labelled graphs <= 4 atoms over {C,N,O,N+,O-} x bond orders grouped by canonical string vs brute-force '
-        'isomorphism key, single-site isotope/charge mutants, and all 2^k stereo label combinations; non-trivial = has '
+        'isomorphism key, single-site isotope/charge mutants, all 2^k stereo label combinations, and hydrogen-free main-group atoms exactly as parsed '
+        '(alone / held only by coordinate bonds: round trip in every style, no two different ones share a string); non-trivial = has '
         'ring or stereo label or charge or isotope or radical or several components, distinct by canonical string')
 ASSUMPTIONS = ['CachedMethods compatibility shim', 'SMILES language bound: < 100 simultaneously open ring closures',
                'parsed aromatic molecules are normalised with kekule();thiele() before H counts are compared '
                '(documented behaviour of the raw reader)']
 SPECS = ['', 'r', 'a', 'A', 'm', 'h', 'ra', 'rA', 'rm', 'rh', 'rAa', 'rmh', 'Am', 'ah', 'rAmh', 'rahA']
 CONFIG = {
-    'quick': {'shards': 16, 'budget_s': 100, 'n_corpus': 700, 'n_ring': 100, 'writes': 8, 'inj_atoms': 4,
+    'quick': {'shards': 16, 'budget_s': 100, 'n_corpus': 1200, 'n_ring': 160, 'writes': 10, 'inj_atoms': 4,
               'floors': {'evaluations': 8000, 'distinct_nontrivial': 500, 'roundtrip.compared': 6000,
                          'inj.graphs': 3000, 'inj.stereo-sets': 20, 'closure.ge10': 20, 'recorder.calls': 6000}},
-    'thorough': {'shards': 16, 'budget_s': 1500, 'n_corpus': 4200, 'n_ring': 2000, 'writes': 24, 'inj_atoms': 5,
+    'thorough': {'shards': 16, 'budget_s': 1500, 'n_corpus': 4200, 'n_ring': 8000, 'writes': 60, 'inj_atoms': 5,
                  'floors': {'evaluations': 100000, 'distinct_nontrivial': 3000, 'roundtrip.compared': 80000,
                             'inj.graphs': 50000, 'inj.stereo-sets': 200, 'closure.ge10': 200,
                             'recorder.calls': 80000}},
